@@ -550,7 +550,21 @@ fn fold_constraint_set(
                 subtype: _,
                 extensible: _,
             }),
-        ) => return Ok(Some(c.clone())),
+        ) => {
+            // The contained subtype itself is not folded. It can be ignored in an INTERSECTION,
+            // but a UNION with it (or an EXCEPT applied to it) has no PER-visible bounds.
+            return match set.operator {
+                SetOperator::Intersection => Ok(Some(c.clone())),
+                SetOperator::Union => Ok(None),
+                SetOperator::Except => {
+                    if matches!(set.base, SubtypeElements::ContainedSubtype { .. }) {
+                        Ok(None)
+                    } else {
+                        Ok(Some(set.base.clone()))
+                    }
+                }
+            };
+        }
         (SubtypeElements::PermittedAlphabet(elem_or_set), None)
         | (SubtypeElements::SizeConstraint(elem_or_set), None) => {
             return match &**elem_or_set {
